@@ -189,10 +189,14 @@ func runComparators(c *Ctx, fns []*ssa.Function, wantKey map[string]string) {
 							if op == token.GTR {
 								lhs, rhs, op = rhs, lhs, token.LSS // key(x[j]) > key(x[i]) is key(x[i]) < key(x[j])
 							}
-							a := strings.ReplaceAll(canon(lhs), "["+less.Params[0].Name()+"]", "[#]")
-							bb := strings.ReplaceAll(canon(rhs), "["+less.Params[1].Name()+"]", "[#]")
+							cl, cr := canon(lhs), canon(rhs)
+							if k1, k2 := c.keyThroughFuncValue(lhs), c.keyThroughFuncValue(rhs); k1 != "" && k2 != "" {
+								cl, cr = k1, k2 // key(&x[i]) < key(&x[j]) with key a field selector at every call site
+							}
+							a := strings.ReplaceAll(cl, "["+less.Params[0].Name()+"]", "[#]")
+							bb := strings.ReplaceAll(cr, "["+less.Params[1].Name()+"]", "[#]")
 							if op != token.LSS || a != bb || !strings.Contains(a, "[#]") {
-								probs = append(probs, "comparator is not `key(x[i]) < key(x[j])` on one key")
+								probs = append(probs, "comparator is not `key(x[i]) < key(x[j])` on one key: "+clip(a, 60)+" "+op.String()+" "+clip(bb, 60))
 							}
 							if i := strings.LastIndex(a, "."); i >= 0 {
 								field = strings.TrimSuffix(a[i+1:], ")")
@@ -277,24 +281,11 @@ func runStaticOrder(c *Ctx) {
 			for _, in := range sortLoop.Header.Instrs {
 				if nx, isNext := in.(*ssa.Next); isNext {
 					if rng, isR := nx.Iter.(*ssa.Range); isR {
-						// every MapUpdate into this map happens in a full range over the trips parameter
-						n := 0
-						full := true
-						for _, b := range fn.Blocks {
-							for _, in2 := range b.Instrs {
-								if mu, isMU := in2.(*ssa.MapUpdate); isMU && mu.Map == rng.X {
-									n++
-									if ia, isIA := mu.Value.(*ssa.IndexAddr); !isIA {
-										full = false
-									} else if r, _ := isRangeIndexOver(ia.Index, ia.X); !r {
-										full = false
-									} else if _, isParam := ia.X.(*ssa.Parameter); !isParam {
-										full = false
-									}
-								}
-							}
-						}
-						all = n > 0 && full
+						// every MapUpdate into this map happens in a full range over the trips parameter (in this function,
+						// or in the helper that builds and returns the map from its slice argument)
+						src := fullIndexSource(rng.X, 0)
+						_, isParam := src.(*ssa.Parameter)
+						all = src != nil && isParam && src.Parent() == fn
 					}
 				}
 			}
@@ -545,6 +536,38 @@ func runRejectInert(c *Ctx) {
 					accept, acceptPos = pr, pos
 				}
 			}
+			// `if valid { record } else { report }` as the last statement of the body: both arms end the body, and which of
+			// them is written first says nothing. The accepting arm is the one that records something; an arm that only
+			// reports is a reject arm like any early exit.
+			accepts := map[*ssa.BasicBlock]bool{}
+			if accept != nil {
+				effects := func(blk *ssa.BasicBlock) bool {
+					for _, in := range blk.Instrs {
+						switch x := in.(type) {
+						case *ssa.Store:
+							if _, isAl := addrRoot(x.Addr).(*ssa.Alloc); !isAl {
+								return true
+							}
+						case *ssa.MapUpdate:
+							return true
+						case *ssa.Call:
+							if isBuiltin(x, "append") {
+								return true
+							}
+						}
+					}
+					return false
+				}
+				chosen := accept
+				if len(accept.Preds) == 1 && !effects(accept) {
+					for _, pr := range l.Header.Preds {
+						if l.Blocks[pr] && pr != accept && len(pr.Preds) == 1 && pr.Preds[0] == accept.Preds[0] && effects(pr) {
+							chosen = pr
+						}
+					}
+				}
+				accepts[chosen] = true
+			}
 			localAlloc := map[ssa.Value]bool{}
 			for b := range l.Blocks {
 				for _, in := range b.Instrs {
@@ -581,7 +604,7 @@ func runRejectInert(c *Ctx) {
 			var problems []string
 			nReject := 0
 			pathsWithin(l.Header.Succs[0], l, func(path []*ssa.BasicBlock, back bool) {
-				if !back || path[len(path)-1] == accept {
+				if !back || accepts[path[len(path)-1]] {
 					return
 				}
 				nReject++
@@ -1055,4 +1078,82 @@ func argsAreIterationLocal(call *ssa.Call, localAlloc map[ssa.Value]bool) bool {
 		}
 	}
 	return true
+}
+
+// fullIndexSource: the slice S such that map value m holds exactly entries &S[i] put there by loops that visit every
+// element of S (nil if m is not such an index). m is a local map of its function, or the result of a same-module
+// helper that builds such a map from one of its parameters (then S is the call's argument).
+func fullIndexSource(m ssa.Value, d int) ssa.Value {
+	if d > 3 {
+		return nil
+	}
+	if call, ok := m.(*ssa.Call); ok {
+		h := call.Call.StaticCallee()
+		if h == nil || call.Call.IsInvoke() || len(h.Blocks) == 0 || fnPkgPathPrefix(h) == "" {
+			return nil
+		}
+		var inner ssa.Value
+		for _, blk := range h.Blocks {
+			ret, isRet := blk.Instrs[len(blk.Instrs)-1].(*ssa.Return)
+			if !isRet {
+				continue
+			}
+			if len(ret.Results) != 1 {
+				return nil
+			}
+			src := fullIndexSource(ret.Results[0], d+1)
+			if src == nil || (inner != nil && inner != src) {
+				return nil
+			}
+			inner = src
+		}
+		pa, isParam := inner.(*ssa.Parameter)
+		if !isParam || pa.Parent() != h {
+			return nil
+		}
+		for i, q := range h.Params {
+			if q == pa && i < len(call.Call.Args) {
+				return call.Call.Args[i]
+			}
+		}
+		return nil
+	}
+	instr, ok := m.(ssa.Instruction)
+	if !ok {
+		return nil
+	}
+	fn := instr.Parent()
+	var src ssa.Value
+	n := 0
+	for _, b := range fn.Blocks {
+		for _, in2 := range b.Instrs {
+			mu, isMU := in2.(*ssa.MapUpdate)
+			if !isMU || mu.Map != m {
+				continue
+			}
+			n++
+			ia, isIA := mu.Value.(*ssa.IndexAddr)
+			if !isIA {
+				return nil
+			}
+			if r, _ := isRangeIndexOver(ia.Index, ia.X); !r {
+				return nil
+			}
+			if src != nil && src != ia.X {
+				return nil
+			}
+			src = ia.X
+		}
+	}
+	if n == 0 {
+		return nil
+	}
+	return src
+}
+
+func fnPkgPathPrefix(f *ssa.Function) string {
+	if pp := fnPkgPath(f); strings.HasPrefix(pp, modPath) {
+		return pp
+	}
+	return ""
 }
